@@ -207,6 +207,48 @@ def hex2 (n : Nat) : String := String.ofList [hexDigit (n / 16), hexDigit (n % 1
 /-- stand-in for the content hash in the driver (the theorems are stated for every `H`) -/
 def standInHash (s : List Nat) : List Nat := 1 :: s.length :: s
 
+/-! ## audit families (`harness/hlight/src/bin/wire/fam.rs`) -/
+
+/-- the cut positions of the truncation families (the harness computes the same list) -/
+def cuts (n : Nat) : List Nat :=
+  (List.range (min n 64) ++ (List.range 24).map (fun i => i * n / 24) ++ [n - 1, n - 2, n - 3]).filter (· < n)
+
+/-- raw acceptance by the MessagePack model reader: the input starts with a value of the type -/
+def rawAccepts (ty : String) (bs : List Nat) : Bool :=
+  match schemaOf ty with
+  | none => false
+  | some s =>
+    match decode bs with
+    | none => false
+    | some (v, _) =>
+      match ofVal s v with
+      | some t => extraOk ty t
+      | none => false
+
+def rawAcceptsC (ty : String) (bs : List Nat) : Bool :=
+  match SafeNet.WireCbor.cschemaOf ty with
+  | none => false
+  | some (_, rd) => (SafeNet.WireCbor.readMsg rd bs).isSome
+
+def verdicts (n : Nat) (f : Nat → String) : String :=
+  let items := (cuts n).map f
+  if items.isEmpty then "none" else rle items
+
+def fnvStep (h : UInt64) (b : Nat) : UInt64 := (h ^^^ b.toUInt64) * 0x100000001b3
+def fnvList (h : UInt64) (bs : List Nat) : UInt64 := bs.foldl fnvStep h
+/-- `n` times the same byte, without building the list (`fnvList h (List.replicate n b)`, unfolded) -/
+def fnvRepeat : Nat → UInt64 → Nat → UInt64
+  | 0, h, _ => h
+  | n+1, h, b => fnvRepeat n (fnvStep h b) b
+def fnvInit : UInt64 := 0xcbf29ce484222325
+def hex16 (h : UInt64) : String :=
+  String.ofList ((List.range 16).map fun i => hexDigit ((h.toNat / 16 ^ (15 - i)) % 16))
+
+/-- a one-way line: under witness `a` (the implementation accepted) the model's own verdict, which must then be the same value;
+under `r` (the implementation refused: a leaf the model keeps opaque may be invalid) `reject` -/
+def oneWay (w : String) (mine : String) : Option String :=
+  if w = "a" then some mine else if w = "r" then some "reject" else none
+
 def step (_ : Unit) (ws : List String) : Unit × String :=
   let r : Option String :=
     match ws with
@@ -296,6 +338,73 @@ def step (_ : Unit) (ws : List String) : Unit × String :=
       some (match decodeAsC ty bs true with
         | some t => s!"ok {ctreeText t}"
         | none => "reject")
+    | "decx" :: ty :: h :: w :: _ => do
+      let bs ← unhex h
+      oneWay w (match decodeAs ty bs with
+        | some t => s!"ok {treeText t}"
+        | none => "reject")
+    | "recdecx" :: ty :: h :: w :: _ => do
+      let bs ← unhex h
+      match fromRecord bs with
+      | none => some "hdr-err"
+      | some k =>
+        if w = "a" then
+          some (if bs.length > headerSize then
+            match decodeAs ty (bs.drop headerSize) with
+            | some t => s!"{kindName k} ok {treeText t}"
+            | none => s!"{kindName k} reject"
+          else s!"{kindName k} reject")
+        else if w = "r" then some s!"{kindName k} reject" else none
+    | "cdecx" :: ty :: h :: w :: _ => do
+      let bs ← unhex h
+      let _ ← SafeNet.WireCbor.cschemaOf ty
+      oneWay w (match decodeAsC ty bs false with
+        | some t => s!"ok {ctreeText t}"
+        | none => "reject")
+    | ["dectrunc", ty, h] => do
+      let bs ← unhex h
+      let _ ← schemaOf ty
+      some (verdicts bs.length fun k => if rawAccepts ty (bs.take k) then "a" else "r")
+    | ["cdectrunc", ty, h] => do
+      let bs ← unhex h
+      let _ ← SafeNet.WireCbor.cschemaOf ty
+      some (verdicts bs.length fun k => if rawAcceptsC ty (bs.take k) then "a" else "r")
+    | ["recdectrunc", ty, h] => do
+      let bs ← unhex h
+      let _ ← schemaOf ty
+      some (verdicts bs.length fun k =>
+        let c := bs.take k
+        match fromRecord c with
+        | none => "h"
+        | some _ => if c.length > headerSize && rawAccepts ty (c.drop headerSize) then "a" else "r")
+    -- the worst-case honest Replicate of n records: the model's writer is run on it (length and a hash of every byte are
+    -- compared with the real codec's), the read verdict is `honest_replicate_fits_iff` / `oversize_message_rejected`
+    | ["crepl", n, b] => do
+      let n ← n.toNat?
+      let b ← match unhex b with | some [b] => some b | _ => none
+      if n > 25165824 then none else
+      let bytes := SafeNet.WireCbor.writeMsg (SafeNet.WireCbor.fillReplicate n b)
+      let len := bytes.length
+      if len != SafeNet.WireCbor.replicateRequestSize n b then some "closed-form-differs" else
+      some s!"len={len} fnv={hex16 (fnvList fnvInit bytes)} read={if len ≤ SafeNet.WireCbor.requestCap then "ok" else "err"}"
+    -- a response with an n-byte payload: prefix and payload header from the model's writer (`fill_response_bytes`), the
+    -- payload hashed without building it; the read verdict is `response_cap_boundary`
+    | ["cresp", n, b] => do
+      let n ← n.toNat?
+      let b ← match unhex b with | some [b] => some b | _ => none
+      if n > 25165824 then none else
+      let front := SafeNet.WireCbor.responsePrefix ++ SafeNet.Cbor.encodeArg 2 n
+      let len := front.length + n
+      if len != SafeNet.WireCbor.fillResponseSize n then some "closed-form-differs" else
+      some s!"len={len} fnv={hex16 (fnvRepeat n (fnvList fnvInit front) b)} read={if len ≤ SafeNet.WireCbor.responseCap then "ok" else "err"}"
+    | ["pchunk", a, v] => do
+      let a ← unhex a
+      let v ← unhex v
+      let forged : Chunk := { address := a, value := v }
+      let proof : Tree := .tup [.seq []]
+      let bytes := trySerializeRecord (.arr [toVal proof, forged.toVal]) .ChunkWithPayment
+      let (_, back) ← (tryDeserializeRecord bytes).bind (paidChunkOfVal (ofVal proofOfPayment) SafeNet.Sha3.hashBytes)
+      some ((if back.address == SafeNet.Sha3.hashBytes v && back.value == v then "recomputed " else "kept ") ++ hex back.address)
     | ["chunk", a, v] => do
       let a ← unhex a
       let v ← unhex v
